@@ -16,7 +16,8 @@
 (* string "(x+y)"), so associativity cannot hide a wrong order.               *)
 (*                                                                           *)
 (* Part 2 (SpecCalc): the calculator grammar of the README                    *)
-(*     expr = operand % ("*") % ("+" | "-")  => BinaryOp(true, self, fn)      *)
+(*     expr = operand % "*" % ("+" | "-") % ("<" | ">")                       *)
+(*                                          => BinaryOp(true, self, fn)      *)
 (*     operand = basicLit | unaryExpr | "(" expr ")"                          *)
 (* For every arithmetic expression tree of the bound, printed with minimal    *)
 (* parentheses: the value obtained by matching the text into the nested `%`   *)
@@ -29,9 +30,11 @@ CONSTANTS AtomVals,     \* part 1: atom spellings, e.g. {"1", "2"}
           MaxTail,      \* part 1: longest tail of a flat list result
           ElemTail,     \* part 1: longest tail of an element that is itself a list result
           NestTail,     \* part 1: longest tail of a list result with such elements
+          DeepTail,     \* part 1: longest tail of a THREE-level list result (-1 = none)
           Nums,         \* part 2: operand values
           MaxOperands,  \* part 2: operands per expression
-          WithNeg       \* part 2: TRUE = also every placement of one unary minus
+          WithNeg,      \* part 2: TRUE = also every placement of one unary minus
+          CmpOps        \* part 2: operators of the third (lowest) % level, {"<", ">"} or {}
 
 -----------------------------------------------------------------------------
 \* Part 1: list results
@@ -47,7 +50,15 @@ PairsOf(E) == { Pair(s, x) : s \in Seps, x \in E }
 FlatLRs(n) == { LR(h, t) : h \in Atoms, t \in SeqsUpTo(PairsOf(Atoms), n) }
 NestElems == Atoms \cup FlatLRs(ElemTail)
 NestedLRs == { LR(h, t) : h \in NestElems, t \in SeqsUpTo(PairsOf(NestElems), NestTail) }
-ListResults == FlatLRs(MaxTail) \cup NestedLRs
+\* three levels, the result of `((R % s1) % s2) % s3`: an element is a list result whose elements are list
+\* results.  BinaryOpR / BinaryExprR must recurse all the way down.  Representative level-1 elements keep it small.
+D1 == IF AtomVals = {} \/ Seps = {} THEN {} ELSE
+      LET a == CHOOSE x \in AtomVals : TRUE  b == CHOOSE x \in AtomVals : \A y \in AtomVals : x = y \/ x # a
+          s1 == CHOOSE x \in Seps : TRUE     s2 == CHOOSE x \in Seps : \A y \in Seps : x = y \/ x # s1
+      IN  { At(a), LR(At(a), <<Pair(s1, At(b))>>), LR(At(b), <<Pair(s2, At(a))>>) }
+D2 == { LR(x, <<>>) : x \in D1 } \cup { LR(x, <<Pair(s, y)>>) : x \in D1, s \in Seps, y \in D1 }
+DeepLRs == IF DeepTail < 0 THEN {} ELSE { LR(h, t) : h \in D2, t \in SeqsUpTo(PairsOf(D2), DeepTail) }
+ListResults == FlatLRs(MaxTail) \cup NestedLRs \cup DeepLRs
 
 \* how fn sees an element that is not folded: the harness renders []any the same way
 RECURSIVE Show(_), ShowTail(_)
@@ -103,15 +114,18 @@ SourceOrder == pc = "done" => log = [ j \in 1..(Len(obj.tl) + 1) |-> Show(Elemen
 \* vacuity guard: with two or more tail elements a right fold is a different term
 Distinguishes == (pc = "done" /\ Len(obj.tl) >= 2) => acc # App(obj.tl[1].op, Operand(obj.hd[1], rec), FoldRight(obj, 1, rec))
 Terminates == <>(pc = "done")
+\* the helpers only read the match result: no action of the fold machine changes obj (tpl.go: List must not
+\* build its result inside in's backing array, BinaryOp must not write into the lists it walks)
+ReadOnly == [][obj' = obj]_vars
 
-Export == pc = "done" => Emit([lr |-> obj, rec |-> rec, fold |-> acc, order |-> log])
+Export == pc = "done" => Emit([lr |-> obj, rec |-> rec, fold |-> acc, order |-> log, readonly |-> TRUE])
 
 -----------------------------------------------------------------------------
 \* Part 2: arithmetic expressions and the calculator
 Num(n)        == [k |-> "num", n |-> n, op |-> "",  xs |-> <<>>]
 Neg(x)        == [k |-> "neg", n |-> 0, op |-> "-", xs |-> <<x>>]
 Bin(o, x, y)  == [k |-> "bin", n |-> 0, op |-> o,   xs |-> <<x, y>>]
-Ops == {"+", "-", "*"}
+Ops == {"+", "-", "*"} \cup CmpOps
 
 RECURSIVE TreesN(_)
 TreesN(n) == IF n = 1 THEN { Num(v) : v \in Nums }
@@ -124,17 +138,18 @@ NegVariants(t) == {Neg(t)} \cup
 
 RECURSIVE Eval(_)
 Apply(o, x, y) == CASE o = "+" -> x + y [] o = "-" -> x - y [] o = "*" -> x * y
+                    [] o = "<" -> (IF x < y THEN 1 ELSE 0) [] o = ">" -> (IF x > y THEN 1 ELSE 0)   \* as in C
 Eval(t) == CASE t.k = "num" -> t.n
              [] t.k = "neg" -> 0 - Eval(t.xs[1])
              [] t.k = "bin" -> Apply(t.op, Eval(t.xs[1]), Eval(t.xs[2]))
 
 \* minimal parentheses for the calculator's precedence: + - (1) < * (2) < unary minus (3) < number (4); left associative
-Level(t) == CASE t.k = "num" -> 4 [] t.k = "neg" -> 3 [] t.op = "*" -> 2 [] OTHER -> 1
+Level(t) == CASE t.k = "num" -> 5 [] t.k = "neg" -> 4 [] t.op = "*" -> 3 [] t.op \in {"+", "-"} -> 2 [] OTHER -> 1
 NumTok(n) == ToString(n)
 RECURSIVE PrE(_), PrEAt(_, _)
 PrEAt(t, p) == IF Level(t) < p THEN <<"(">> \o PrE(t) \o <<")">> ELSE PrE(t)
 PrE(t) == CASE t.k = "num" -> <<NumTok(t.n)>>
-            [] t.k = "neg" -> <<"-">> \o PrEAt(t.xs[1], 3)
+            [] t.k = "neg" -> <<"-">> \o PrEAt(t.xs[1], 4)
             [] t.k = "bin" -> PrEAt(t.xs[1], Level(t)) \o <<t.op>> \o PrEAt(t.xs[2], Level(t) + 1)
 
 TokE(ts, j) == IF j <= Len(ts) THEN ts[j] ELSE "<eof>"
@@ -142,7 +157,7 @@ IsNumTok(c) == \E n \in Nums : NumTok(n) = c
 ValOf(c) == CHOOSE n \in Nums : NumTok(n) = c
 
 \* (a) the reference: precedence climbing over the tokens.  A result is [v, j].
-BinPrec(c) == IF c = "*" THEN 2 ELSE IF c \in {"+", "-"} THEN 1 ELSE 0
+BinPrec(c) == IF c = "*" THEN 3 ELSE IF c \in {"+", "-"} THEN 2 ELSE IF c \in {"<", ">"} THEN 1 ELSE 0
 RECURSIVE PCExpr(_, _, _), PCLoop(_, _, _, _), PCPrimary(_, _)
 PCPrimary(ts, j) ==
   LET c == TokE(ts, j) IN
@@ -159,9 +174,10 @@ PCExpr(ts, j, minp) == LET r == PCPrimary(ts, j) IN PCLoop(ts, r.j, r.v, minp)
 PCValue(ts) == PCExpr(ts, 1, 1).v
 
 \* (b) the calculator: match the text into the nested % structure, then BinaryOp(true, ...).
-\*     expr = (operand % "*") % ("+" | "-");  operand results are numbers (their rules rewrite the result)
+\*     expr = ((operand % "*") % ("+" | "-")) % ("<" | ">");  operand results are numbers (their rules rewrite
+\*     the result).  Three % levels: BinaryOp(true, ...) has to recurse through two levels of nested lists.
 NAt(n)       == [k |-> "at", v |-> n, hd |-> <<>>, tl |-> <<>>]
-RECURSIVE CExpr(_, _), CExprTail(_, _, _), CTerm(_, _), CTermTail(_, _, _), COperand(_, _), NumFold(_, _)
+RECURSIVE CCmp(_, _), CCmpTail(_, _, _), CExpr(_, _), CExprTail(_, _, _), CTerm(_, _), CTermTail(_, _, _), COperand(_, _), NumFold(_, _)
 \* BinaryOpR with the calculator's fn
 NumOperand(e) == IF e.k = "lr" THEN NumFold(e, Len(e.tl)) ELSE e.v
 NumFold(l, n) == IF n = 0 THEN NumOperand(l.hd[1]) ELSE Apply(l.tl[n].op, NumFold(l, n - 1), NumOperand(l.tl[n].x))
@@ -169,7 +185,7 @@ COperand(ts, j) ==
   LET c == TokE(ts, j) IN
   IF IsNumTok(c) THEN [e |-> NAt(ValOf(c)), j |-> j + 1]                          \* basicLit
   ELSE IF c = "-" THEN LET r == COperand(ts, j + 1) IN [e |-> NAt(0 - r.e.v), j |-> r.j]   \* unaryExpr => -self[1]
-  ELSE LET r == CExpr(ts, j + 1) IN [e |-> NAt(NumFold(r.e, Len(r.e.tl))), j |-> r.j + 1]  \* "(" expr ")" => self[1]
+  ELSE LET r == CCmp(ts, j + 1) IN [e |-> NAt(NumFold(r.e, Len(r.e.tl))), j |-> r.j + 1]   \* "(" expr ")" => self[1]
 CTermTail(ts, j, l) ==
   IF TokE(ts, j) = "*" THEN LET r == COperand(ts, j + 1) IN CTermTail(ts, r.j, LR(l.hd[1], Append(l.tl, Pair("*", r.e))))
   ELSE [e |-> l, j |-> j]
@@ -178,7 +194,11 @@ CExprTail(ts, j, l) ==
   IF TokE(ts, j) \in {"+", "-"} THEN LET r == CTerm(ts, j + 1) IN CExprTail(ts, r.j, LR(l.hd[1], Append(l.tl, Pair(TokE(ts, j), r.e))))
   ELSE [e |-> l, j |-> j]
 CExpr(ts, j) == LET r == CTerm(ts, j) IN CExprTail(ts, r.j, LR(r.e, <<>>))
-CalcStructure(ts) == CExpr(ts, 1).e
+CCmpTail(ts, j, l) ==
+  IF TokE(ts, j) \in {"<", ">"} THEN LET r == CExpr(ts, j + 1) IN CCmpTail(ts, r.j, LR(l.hd[1], Append(l.tl, Pair(TokE(ts, j), r.e))))
+  ELSE [e |-> l, j |-> j]
+CCmp(ts, j) == LET r == CExpr(ts, j) IN CCmpTail(ts, r.j, LR(r.e, <<>>))
+CalcStructure(ts) == CCmp(ts, 1).e
 CalcFold(ts) == LET s == CalcStructure(ts) IN NumFold(s, Len(s.tl))
 
 \* every plain tree of 1..MaxOperands operands; the top split is chosen here so that no giant set is built
